@@ -876,9 +876,112 @@ pub fn run(rep: &mut Report) {
         run_cases(rep, "realcrash", 40, real_crash);
     }
     global_logger_case(rep);
+    // a failed rotation followed by further rotations, against log4rs built with `background_rotation`
+    crate::subrun::merge(rep, "L4V_BIN_BGROT", "C08BG", "background_rotation");
     rep.exhaustive = Some(false);
     rep.set_extra("enumeration", json!("exhaustive over the hook points of each generated history; histories are sampled"));
     rep.require(rep.counter("crash_images_checked") > 100, "fewer than 100 crash images");
     rep.require(rep.counter("faults_injected") > 100, "fewer than 100 faults injected");
     rep.require(rep.set_size("window_sizes") >= 4, "not all window sizes 1-4 were exercised");
+}
+
+
+// ------------------------------------------------------------ background_rotation: a failed rotation, then more
+
+/// One append on a helper thread; `None` = it did not return within the watchdog.
+fn append_watched(app: &std::sync::Arc<log4rs::append::rolling_file::RollingFileAppender>, tid: u32, seq: u32, len: usize) -> Option<bool> {
+    let (tx, rx) = std::sync::mpsc::channel();
+    let app = app.clone();
+    std::thread::spawn(move || {
+        let a = append_frame(&*app, tid, seq, len, true);
+        let _ = tx.send(a.ok);
+    });
+    rx.recv_timeout(Duration::from_secs(90)).ok()
+}
+
+/// Runs in the harness binary built with log4rs' `background_rotation` feature (see `subrun`): the rotation work
+/// happens on a worker thread, so a failing step is not reported by the append that asked for it - but the
+/// appender must still accept the following records and rotate again once the obstruction is gone.
+pub fn run_background(rep: &mut Report) {
+    hooks::install();
+    let n = if rep.tier == "thorough" { 48 } else { 12 };
+    let saved = std::env::var("L4V_JOBS").ok();
+    std::env::set_var("L4V_JOBS", "4");
+    run_cases(rep, "bgfault", n, |rep, rng, idx| {
+        let sc = Scratch::new("c08bg");
+        let limit = *rng.pick(&[0u64, 10, 120]);
+        let count = *rng.pick(&[1u32, 2, 3]);
+        let during = 2 + rng.usize_below(5);
+        let after = 4 + rng.usize_below(8);
+        let desc = json!({"size_limit": limit, "window": count, "appends_with_the_obstacle": during, "appends_after_its_removal": after,
+            "background_rotation": true, "obstacle": "a regular file where the archive directory has to be"});
+        // the archives live in <dir>/arch/, and a regular file of that name is in the way
+        let obstacle = sc.path.join("arch");
+        std::fs::write(&obstacle, b"in the way").unwrap();
+        let kind = RollerKind::Window { base: 0, count, comp: Comp::None, pattern_rel: "arch/app.{}.log".into() };
+        let app = match kind.build(&sc.path).map_err(|e| e.to_string()).and_then(|r| {
+            build_appender(&sc.path, true, Box::new(ChunkEnc { pieces: 1 }), Box::new(SizeTrigger::new(limit)), r).map_err(|e| e.to_string())
+        }) {
+            Ok(a) => std::sync::Arc::new(a),
+            Err(err) => {
+                rep.violation("C08:bg:build-failed", json!({"run": desc, "error": err}));
+                return;
+            }
+        };
+        rep.case(&format!("{}|{}", desc, idx), true);
+        rep.count("bg_fault_runs", 1);
+        let mut seq = 0u32;
+        for phase in 0..2 {
+            if phase == 1 {
+                // let the worker of the last failed rotation finish, then clear the way
+                std::thread::sleep(Duration::from_millis(30));
+                std::fs::remove_file(&obstacle).unwrap();
+            }
+            for _ in 0..(if phase == 0 { during } else { after }) {
+                match append_watched(&app, 1, seq, 130) {
+                    None => {
+                        rep.violation(if phase == 0 { "C08:bg:append-blocks-after-a-failed-rotation" } else { "C08:bg:append-blocks-after-the-obstacle-is-gone" },
+                            json!({"run": desc, "record": seq, "what": "the append did not return within 90 s; nothing but a failed background rotation preceded it"}));
+                        // the blocked thread (and the appender it holds) is abandoned
+                        std::mem::forget(app);
+                        return;
+                    }
+                    Some(ok) => {
+                        rep.count("bg_fault_appends", 1);
+                        if phase == 1 && !ok && seq as usize > during + 1 {
+                            rep.violation("C08:bg:append-fails-after-the-obstacle-is-gone", json!({"run": desc, "record": seq}));
+                            return;
+                        }
+                    }
+                }
+                seq += 1;
+                if rng.chance(1, 3) {
+                    std::thread::sleep(Duration::from_millis(2));
+                }
+            }
+        }
+        // rotation has resumed: an archive appears (the workers are detached threads, so wait for them)
+        let mut resumed = false;
+        for _ in 0..6000 {
+            if sc.path.join("arch").join("app.0.log").is_file() {
+                resumed = true;
+                break;
+            }
+            std::thread::sleep(Duration::from_millis(10));
+        }
+        if resumed {
+            rep.count("bg_rotation_resumed", 1);
+        } else {
+            rep.violation("C08:bg:rotation-does-not-resume", json!({"run": desc,
+                "what": "no archive was produced within 60 s after the obstacle was removed although every later append asked for a rotation",
+                "files": dir_files(&sc.path).keys().cloned().collect::<Vec<_>>()}));
+        }
+        drop(app);
+        std::thread::sleep(Duration::from_millis(20));
+    });
+    match saved {
+        Some(v) => std::env::set_var("L4V_JOBS", v),
+        None => std::env::remove_var("L4V_JOBS"),
+    }
+    rep.require(rep.counter("bg_fault_runs") >= 6, "fewer than 6 background-rotation fault runs");
 }
